@@ -52,6 +52,10 @@ type Plan struct {
 	// being silently dropped.
 	PeerClosedWritesFail bool
 	MaxOps               int
+	// Window > 0: flow control. A Write blocks (hands the baton over) while at least Window bytes of its
+	// direction are delivered but not yet read; it then accepts the whole buffer (a socket buffer of
+	// about Window bytes; 1 = as synchronous as net.Pipe). 0 = writes never block.
+	Window int
 	// Edits[d]: in-transit alterations of direction d, at offsets of the writer's stream, sorted.
 	Edits [2][]Edit
 }
@@ -122,6 +126,7 @@ type Link struct {
 	Deadlock bool // both parties blocked with nothing in flight (EOF was injected to resolve)
 	Horizon  bool // MaxOps reached
 	CutHit   [2]bool
+	wblocked [2]bool      // party is blocked in Write (flow control), not in Read
 	OnSwitch func(to int) // called with the lock held whenever the baton moves
 }
 
@@ -268,7 +273,7 @@ func (c *Conn) Read(p []byte) (int, error) {
 		}
 		// nothing to read: hand the baton over
 		l.state[c.i] = 2
-		if o := l.state[1-c.i]; o == 3 || o == 2 && !l.readable(1-c.i) {
+		if o := l.state[1-c.i]; o == 3 || o == 2 && !l.runnable(1-c.i) {
 			l.Deadlock = true
 			l.injected = true
 			l.ev(c.i, "EOFINJ", 0, nil)
@@ -281,6 +286,16 @@ func (c *Conn) Read(p []byte) (int, error) {
 		}
 		l.state[c.i] = 1
 	}
+}
+
+// runnable reports whether party j, blocked in Read or (flow control) in Write, would get on if it
+// had the baton.
+func (l *Link) runnable(j int) bool {
+	if l.wblocked[j] {
+		s := l.dir[j]
+		return len(s.data)-s.rpos < l.plan.Window || s.dead || s.rclosed || l.injected
+	}
+	return l.readable(j)
 }
 
 // readable reports whether party j, blocked in Read, would get a result if it had the baton.
@@ -315,6 +330,43 @@ func (c *Conn) Write(p []byte) (int, error) {
 			err := &net.OpError{Op: "write", Net: "link", Err: syscall.EPIPE}
 			l.ev(c.i, "W", 0, err)
 			return 0, err
+		}
+		s.all = append(s.all, p...)
+		l.ev(c.i, "W", len(p), nil)
+		return len(p), nil
+	}
+	// flow control: wait until the reader has made room
+	for l.plan.Window > 0 && !s.dead && !s.rclosed && !c.closed && !l.injected && len(s.data)-s.rpos >= l.plan.Window {
+		if o := l.state[1-c.i]; o == 3 {
+			break // the peer has returned without closing: nobody will ever read, the bytes are dropped
+		} else if o == 2 && !l.runnable(1-c.i) {
+			// both parties wait for the other to read: a genuine deadlock of the two stations
+			l.Deadlock = true
+			l.injected = true
+			l.ev(c.i, "EOFINJ", 0, nil)
+			break
+		}
+		l.state[c.i], l.wblocked[c.i] = 2, true
+		l.ev(c.i, "WBLOCK", len(s.data)-s.rpos, nil)
+		l.switchTo(1 - c.i)
+		for l.turn != c.i {
+			l.cond.Wait()
+		}
+		l.state[c.i], l.wblocked[c.i] = 1, false
+	}
+	if s.dead || s.rclosed || c.closed || l.injected {
+		// the link state changed while this Write was blocked: same answers as above
+		switch {
+		case c.closed:
+			l.ev(c.i, "W", 0, net.ErrClosed)
+			return 0, net.ErrClosed
+		case l.injected, s.rclosed && l.plan.PeerClosedWritesFail, s.dead && l.plan.FailAfter >= 0 && s.postCut >= l.plan.FailAfter:
+			err := &net.OpError{Op: "write", Net: "link", Err: syscall.EPIPE}
+			l.ev(c.i, "W", 0, err)
+			return 0, err
+		}
+		if s.dead {
+			s.postCut++
 		}
 		s.all = append(s.all, p...)
 		l.ev(c.i, "W", len(p), nil)
